@@ -47,7 +47,7 @@ ASSUMPTIONS = [
 VARS = "abc"
 PLATES = "ijk"
 PROFILES = {
-    "q": {"a": 2, "b": 2, "i": 2, "j": 3},
+    "q": {"a": 2, "b": 2, "c": 2, "i": 2, "j": 3},
     "s": {"a": 2, "b": 2, "i": 2, "j": 1},  # a plate of size 1 (ties in any size-based choice of the algorithm)
     "r": {"a": 2, "b": 2, "i": 1, "j": 3},
     "t": {"a": 2, "b": 2, "c": 2, "i": 2, "j": 3, "k": 1},
@@ -217,6 +217,7 @@ LEVELS = {
     "unit": dict(E="full-1", one=ALL_ONE, splits="full", scales="full"),
     "unit-psp": dict(E="full-1", one=("psp0", "sp")),
     "edge": dict(E="full-1", one=("psp0", "sp"), scales="full"),
+    "four-q": dict(E="full-1", one=("psp0", "mod", "dyn")),
     "four": dict(E="full-1", one=("psp0", "dyn")),
 }
 
@@ -234,6 +235,11 @@ def plan(tier):
         ("r", g22r, (0,), "unit-psp"),
         ("q", g22r, (0, 1, 2), "unit-psp"),
     ]
+    # 4 factors over 3 variables / 2 plates, linked through shared variables (smallest pool holding two factors of
+    # the joint plate set coupled only through a shallower variable, each also reading a variable of a different
+    # single plate): the three one-call eliminators must all give the table (or all be stuck)
+    g4q = [g for g in graphs(3, 2, 4, canonical=True) if len(g) == 4 and _connected(g)]
+    unit_plate.append(("q", g4q, (0,), "four-q"))
     if tier == "quick":
         return [("q", g22, (0, 1, 2), "q3")] + unit_plate
     # 3 variables / 3 plates: variable relabelling removed (all variables have size 2 and no tie-break of the
